@@ -1147,7 +1147,7 @@ def infeasible_edges_from(fn, start, stop):
     and `stop`.  (`let counted = match site { .. InsufficientData => false }; if !counted { skip() }`: from the InsufficientData arm the
     `counted` edge cannot be taken.)"""
     out = set()
-    near = fn.reachable_from(start, avoid={stop}) | {start}
+    near = fn.reachable_from(start, avoid={stop} if stop is not None else set()) | {start}
     for sb, st in fn.switches():
         if sb not in near:
             continue
